@@ -112,6 +112,14 @@ RE_ENCODING = re.compile(
 )
 
 
+def is_xml_declaration(text: str | bytes) -> bool:
+    # ``<?xml-stylesheet`` and friends are other processing instructions
+    head = text[:6]
+    if isinstance(head, bytes):
+        head = head.decode('latin-1')
+    return head[:5] == '<?xml' and head[5:] in (' ', '\t', '\r', '\n')
+
+
 def read_encoded(data: bytes) -> str:
     return read_bytes(data, "utf-8")[0]
 
@@ -128,13 +136,15 @@ def read_bytes(
             if document.startswith('\ufeff'):
                 document = document[1:]
             return document, encoding, \
-                "text/xml" if document.startswith("<?xml") else None
+                "text/xml" if is_xml_declaration(document) else None
 
         if prefix != encode_string('<?xml') and body.startswith(prefix):
-            return body.decode(encoding), encoding, "text/xml"
+            document = body.decode(encoding)
+            return document, encoding, \
+                "text/xml" if is_xml_declaration(document) else None
 
     content_type: str | None
-    if body.startswith(_xml_decl):
+    if is_xml_declaration(body):
         content_type = "text/xml"
         # A declaration that names no encoding leaves the choice to a
         # meta element (XHTML) and only then to the default.
@@ -172,7 +182,7 @@ def detect_encoding(
 
 
 def read_xml_encoding(body: bytes) -> str | None:
-    if body.startswith(b'<?xml'):
+    if is_xml_declaration(body):
         # Only the declaration itself can name the encoding.
         end = body.find(b'?>')
         match = RE_ENCODING.search(body, 0, len(body) if end < 0 else end)
